@@ -265,8 +265,10 @@ func hasLockCalls(body ast.Node) bool {
 	found := false
 	ast.Inspect(body, func(n ast.Node) bool {
 		if ce, ok := n.(*ast.CallExpr); ok {
-			if sel, ok := ce.Fun.(*ast.SelectorExpr); ok && lockMethods[sel.Sel.Name] {
-				found = true
+			if sel, ok := ce.Fun.(*ast.SelectorExpr); ok {
+				if _, isTry := tryLockMethods[sel.Sel.Name]; isTry || lockMethods[sel.Sel.Name] {
+					found = true
+				}
 			}
 		}
 		return !found
@@ -991,6 +993,27 @@ func (in *Interp) evalCall(x *ast.CallExpr, st *state) []res {
 						out = append(out, res{it.st, AV{}})
 					}
 					continue
+				}
+				if base, isTry := tryLockMethods[name]; isTry && (rv.kind == avSet || rv.kind == avMutex) {
+					// a conditional acquisition: two paths — granted (the lock event, exactly as the hook reports a
+					// successful try, and the value true) and refused (no event, the value false)
+					for _, it := range in.evalList(x.Args, r.st) {
+						granted := it.st.clone()
+						in.lockEvent(base, rv, granted)
+						out = append(out, res{granted, AV{kind: avBool, b: true}})
+						out = append(out, res{it.st, AV{kind: avBool, b: false}})
+					}
+					continue
+				}
+				if _, isTry := tryLockMethods[name]; isTry && (rv.kind == avFresh || rv.kind == avUnknown) {
+					recvT := in.info.Types[se.X].Type
+					if mentions(recvT, in.tsType, 0) || in.isMutexType(recvT) {
+						if rv.kind == avUnknown && mentions(recvT, in.tsType, 0) {
+							in.fail(x.Pos(), "%s on a thread-safe set of unknown identity", name)
+						}
+						out = append(out, res{r.st, AV{}})
+						continue
+					}
 				}
 				if lockMethods[name] && (rv.kind == avFresh || rv.kind == avUnknown) {
 					recvT := in.info.Types[se.X].Type
